@@ -48,6 +48,11 @@ def r1(chk, ctx, sp):
         outside = [c for s in ev.node.body if s is not arms[0] for c in ast.walk(s) if isinstance(c, ast.Call) and callname(c) in ("apply_path", "evaluate_intrinsic_function")]
         ok = ok and not outside
     chk.ob("C13.R1", "path / intrinsic evaluation happens only in the '.$' arm", ok, "", key="%s | evaluation outside the '.$' arm" % ev.qname, where=ev.where(), message="everything else is copied verbatim")
+    darms = [i for i in ast.walk(ev.node) if isinstance(i, ast.If) and norm(i.test) == "v == '$'"]
+    ok = len(darms) == 1 and [norm(s) for s in darms[0].body] == ["v = clone(input)"]
+    chk.ob("C13.R1", "a bare '$' member is cloned, so the payload never holds the live input object", ok, "",
+           key="%s | a '$' member holds the input by reference" % ev.qname, where=ev.where(),
+           message="the input is 'left unmodified' only while the payload does not alias it: a later ResultPath write into the payload's copy would write into the input")
     txt = [norm(s) for s in ast.walk(cl.node) if isinstance(s, ast.stmt)]
     ok = "target = []" in txt and "target = {}" in txt and "target.append(clone(item))" in txt and "target[k] = clone(v)" in txt and ("(k, v) = evaluate(k, v, True)" in txt or "k, v = evaluate(k, v, True)" in txt) and "return target" in txt
     chk.ob("C13.R1", "clone walk builds fresh containers at every depth", ok, "", key="%s | clone walk shape" % cl.qname, where=cl.where(), message="")
